@@ -42,7 +42,7 @@ class C17(HistoryProperty):
     CAP = {"quick": 40, "thorough": 160}
 
     def gen_case(self, rng, tier):
-        cfg = gen.swarm_cfg(rng, off=("shape_change", "nocache"), on=("coalesce",))
+        cfg = gen.swarm_cfg(rng, off=("shape_change", "nocache"), on=("coalesce", "fapp"))
         spec = gen.prune(gen.gen_spec(rng, cfg))
         if rng.random() < 0.35:
             # a coalesce whose first member is a cached dataset that CANNOT be evaluated under any generated dictionary
